@@ -99,43 +99,43 @@ def noCand (a bE n j : Nat) : Bool :=
 
 def noCands (a bE n : Nat) (js : List Nat) : Bool := js.all (noCand a bE n)
 
-/-- Decidable certificate that `sig·10^exp` is the shortest, closest decimal in the rounding interval of
-    `c·2^q`.  All quantities are integers in units of `10^(exp-1)`: a decimal `s·10^(exp-1+j)` is the
-    integer `t = s·10^j`; `t·10^(exp-1)` is compared with `L·2^(q-2)` as `t·A` with `L·B`. -/
-def chk (c : Nat) (q : Int) (sig : Nat) (exp : Int) : Bool :=
-  let A := scaleA (exp - 1) (q - 2)
-  let B := scaleB (exp - 1) (q - 2)
-  let closed : Bool := c % 2 == 0
+/-- The integers `t` with `t·10^e0` in the rounding interval of `c·2^q` are exactly `tmin ≤ t < tmaxE`
+    (`A = scaleA e0 (q-2)`, `B = scaleB e0 (q-2)`: `t·10^e0` is compared with `L·2^(q-2)` as `t·A` with `L·B`). -/
+def tRange (c : Nat) (q e0 : Int) : Nat × Nat :=
+  let A := scaleA e0 (q - 2)
+  let B := scaleB e0 (q - 2)
   let L := loUnits c q * B
   let H := hiUnits c * B
-  let V := 4 * c * B
-  -- the integers `t` with `t·10^(exp-1)` in the interval are `tmin ≤ t < tmaxE`
-  let tmin := if closed then ceilDiv L A else L / A + 1
-  let tmaxE := if closed then H / A + 1 else ceilDiv H A
-  let X := 10 * sig
-  let n := nDigits sig
-  -- (1) in the interval
-  let c1 := decide (0 < sig) && decide (tmin ≤ X) && decide (X < tmaxE)
-  -- (2) nothing with n-1 digits (hence nothing shorter) in the interval
-  let c2 := n == 1 || noCands tmin tmaxE (n - 1) [1, 2, 3]
-  -- (3) nothing with n digits strictly closer; the mirror image (equally close), if it is a candidate,
-  --     forces `sig` even
+  if c % 2 = 0 then (ceilDiv L A, H / A + 1) else (L / A + 1, ceilDiv H A)
+
+/-- No `n`-digit decimal in the interval is strictly closer to the value than `X` (all in units of `10^e0`,
+    on the integer scale: `X·A` against `V = 4c·B`), and the mirror image of `X` (exactly as close), if it is such
+    a candidate, forces `sig` even. -/
+def chkClosest (A V tmin tmaxE X n sig : Nat) : Bool :=
   let XA := X * A
-  let c3 :=
-    if XA = V then true
-    else if V < XA then
-      let cmin := if XA ≤ 2 * V then (2 * V - XA) / A + 1 else 0
-      let closer := noCands (max tmin cmin) (min tmaxE X) n [0, 1, 2]
-      let tie := sig % 2 == 0 || !(decide (XA ≤ 2 * V) && (2 * V - XA) % A == 0) ||
-        noCands (max tmin ((2 * V - XA) / A)) (min tmaxE ((2 * V - XA) / A + 1)) n [0, 1, 2]
-      closer && tie
-    else
-      let cmaxE := ceilDiv (2 * V - XA) A
-      let closer := noCands (max tmin (X + 1)) (min tmaxE cmaxE) n [0, 1, 2]
-      let tie := sig % 2 == 0 || !((2 * V - XA) % A == 0) ||
-        noCands (max tmin ((2 * V - XA) / A)) (min tmaxE ((2 * V - XA) / A + 1)) n [0, 1, 2]
-      closer && tie
-  c1 && c2 && c3
+  if XA = V then true
+  else if V < XA then
+    let cmin := if XA ≤ 2 * V then (2 * V - XA) / A + 1 else 0
+    noCands (max tmin cmin) (min tmaxE X) n [0, 1, 2] &&
+    (sig % 2 == 0 || !(decide (XA ≤ 2 * V) && (2 * V - XA) % A == 0) ||
+      noCands (max tmin ((2 * V - XA) / A)) (min tmaxE ((2 * V - XA) / A + 1)) n [0, 1, 2])
+  else
+    noCands (max tmin (X + 1)) (min tmaxE (ceilDiv (2 * V - XA) A)) n [0, 1, 2] &&
+    (sig % 2 == 0 || !((2 * V - XA) % A == 0) ||
+      noCands (max tmin ((2 * V - XA) / A)) (min tmaxE ((2 * V - XA) / A + 1)) n [0, 1, 2])
+
+/-- Decidable certificate that `sig·10^exp` is the shortest, closest decimal in the rounding interval of
+    `c·2^q`.  All quantities are integers in units of `10^(exp-1)`: a decimal `s·10^(exp-1+j)` is the
+    integer `t = s·10^j`.
+    (1) `sig·10^exp` (the integer `10·sig`) is in the interval;
+    (2) nothing with `n-1` digits (hence nothing shorter) is: such a decimal has `j ∈ {1,2,3}`;
+    (3) nothing with `n` digits (`j ∈ {0,1,2}`) is strictly closer, and the tie rule. -/
+def chk (c : Nat) (q : Int) (sig : Nat) (exp : Int) : Bool :=
+  let r := tRange c q (exp - 1)
+  let n := nDigits sig
+  decide (0 < sig) && decide (r.1 ≤ 10 * sig) && decide (10 * sig < r.2) &&
+  (n == 1 || noCands r.1 r.2 (n - 1) [1, 2, 3]) &&
+  chkClosest (scaleA (exp - 1) (q - 2)) (4 * c * scaleB (exp - 1) (q - 2)) r.1 r.2 (10 * sig) n sig
 
 /-! ## exact meaning of a JSON number text -/
 
